@@ -1,5 +1,11 @@
 KERNELS = {'C04_replicate': dict(src='kernels/C04_replicate.cpp', flags=['-DNDEBUG']),
-           'C04_join': dict(src='kernels/C04_join.cpp', flags=['-DNDEBUG'])}
+           'C04_join': dict(src='kernels/C04_join.cpp', flags=['-DNDEBUG']),
+           'C04_window': dict(src='kernels/C04_window.cpp', flags=['-DNDEBUG']),
+           'C04_generate': dict(src='kernels/C04_generate.cpp', flags=['-DNDEBUG']),
+           'C04_select': dict(src='kernels/C04_select.cpp', flags=['-DNDEBUG']),
+           'C04_split': dict(src='kernels/C04_split.cpp', flags=['-DNDEBUG']),
+           'C04_multi': dict(src='kernels/C04_multi.cpp', flags=['-DNDEBUG']),
+           'C04_index': dict(src='kernels/C04_index.cpp', flags=['-DNDEBUG'])}
 def _c(d, e, **kw):
     c = {'DIM': d, 'MAXE': e, '_unwindset': ['in_data.0:%d' % (e**d + 2), 'k_fill_u32.0:%d' % (e**d + 2)]}; c.update(kw); return c
 def _dims(e, dims=(1, 2, 3), **kw): return [_c(d, e, **kw) for d in dims]
@@ -8,7 +14,8 @@ def _h(name, tu, src, unwind=8, quick=None, thorough=None, kf=(), **kw):
     q = quick or _dims(3); t = thorough or _dims(4)
     for c in q + t:
         for m in kf: c[m] = 1
-    return dict(name=name, src='harnesses/%s.c' % src, func='h_' + name, kernels=[tu], unwind=unwind, quick=q, thorough=t, **kw)
+    return dict(name=name, src='harnesses/%s.c' % src, func='h_' + name, kernels=[tu], unwind=unwind, quick=q, thorough=t, thorough_includes_quick=False, **kw)
+def _SP(e): return [_c(d, e, SECTIONS=n) for d in (1, 2, 3) for n in (1, 2, 3)]
 BD = 'hybrid source array (capacity 64) of dim DIM (enumerated 1..3), every extent 1..MAXE, all element data, the result index and the arguments symbolic'
 B2 = 'two hybrid source arrays (capacity 64) of dim DIM (enumerated 1..3), extents 1..MAXE, both data buffers, the result index and the arguments symbolic'
 HARNESSES = [
@@ -17,16 +24,61 @@ HARNESSES = [
  _h('repeat_flat', 'C04_replicate', 'C04_replicate', bounds=BD + '; scalar repeats 1..3, axis=None'),
  _h('roll', 'C04_replicate', 'C04_replicate', bounds=BD + '; shift in [-2n,2n] (n the rolled extent), axis in [-DIM,DIM)', kf=['KF_C04_ROLL_BIGSHIFT']),
  _h('roll_flat', 'C04_replicate', 'C04_replicate', bounds=BD + '; shift in [-2*numel,2*numel], axis=None', kf=['KF_C04_ROLL_BIGSHIFT']),
- _h('take', 'C04_join', 'C04_join', bounds=BD + '; index list of 1..4 entries in [-n,n) (repeats allowed), axis in [-DIM,DIM)'),
- _h('take_flat', 'C04_join', 'C04_join', bounds=BD + '; flat index list of 1..4 entries in [-numel,numel), axis=None'),
- _h('concatenate', 'C04_join', 'C04_join', bounds=B2 + '; axis in [-DIM,DIM), b differs from a along axis only'),
+ _h('take', 'C04_join', 'C04_join', bounds=BD + '; index list of 1..4 entries in [-n,n) (repeats allowed), axis in [-DIM,DIM)', kf=['KF_C04_TAKE_NEGAXIS', 'KF_C04_TAKE_NEGINDEX']),
+ _h('take_flat', 'C04_join', 'C04_join', bounds=BD + '; flat index list of 1..4 entries in [-numel,numel), axis=None', kf=['KF_C04_TAKE_NEGINDEX']),
+ _h('concatenate', 'C04_join', 'C04_join', bounds=B2 + '; axis in [-DIM,DIM), b differs from a along axis only', kf=['KF_C04_CONCATENATE_NEGAXIS']),
  _h('concatenate_flat', 'C04_join', 'C04_join', bounds=B2 + '; axis=None, independent shapes'),
- _h('stack', 'C04_join', 'C04_join', bounds=B2 + '; identical shapes, axis in [-(DIM+1),DIM]'),
+ _h('stack', 'C04_join', 'C04_join', bounds=B2 + '; identical shapes, axis in [-(DIM+1),DIM]', kf=['KF_C04_STACK_NEGAXIS']),
  _h('stack_default', 'C04_join', 'C04_join', bounds=B2 + '; identical shapes, default axis'),
  _h('hstack', 'C04_join', 'C04_join', bounds=B2),
  _h('vstack', 'C04_join', 'C04_join', bounds=B2),
  _h('dstack', 'C04_join', 'C04_join', bounds=B2),
  _h('column_stack', 'C04_join', 'C04_join', bounds=B2),
+ _h('pad', 'C04_window', 'C04_window', bounds=BD + '; widths before/after per axis 0..2, fill value symbolic'),
+ _h('sliding_axis', 'C04_window', 'C04_window', bounds=BD + '; scalar window 1..n, axis in [-DIM,DIM)'),
+ _h('sliding_all', 'C04_window', 'C04_window', bounds=BD + '; one window extent 1..n_k per axis, axis=None'),
+ _h('tril', 'C04_window', 'C04_window', bounds=BD + '; k in [-MAXE,MAXE]'),
+ _h('triu', 'C04_window', 'C04_window', bounds=BD + '; k in [-MAXE,MAXE]'),
+ _h('diagonal', 'C04_window', 'C04_window', quick=_dims(3, (2, 3)), thorough=_dims(4, (2, 3)), bounds=BD + ' (DIM 2..3); offset in (-MAXE,MAXE) with a non-empty diagonal, axis1 != axis2 in [-DIM,DIM)', kf=['KF_C04_DIAGONAL_NEGOFFSET']),
+ _h('diagonal_default', 'C04_window', 'C04_window', quick=_dims(3, (2, 3)), thorough=_dims(4, (2, 3)), bounds=BD + ' (DIM 2..3); default offset/axes'),
+] + [
+ _h(n, 'C04_generate', 'C04_generate', quick=[{'MAXN': 4}], thorough=[{'MAXN': 8}], bounds='N, M in 1..MAXN, k in [-MAXN,MAXN], result index: all symbolic' + x)
+ for n, x in (('eye', ''), ('eye_square', '; M=None'), ('identity', '; identity(N)'), ('tri', ''), ('tri_square', '; M=None'))
+] + [
+ _h(n, 'C04_generate', 'C04_generate', quick=[{'MAXE': 3}], thorough=[{'MAXE': 4}], bounds='run-time shape (static_vector) of 1..4 extents in 1..MAXE, fill value, result index: all symbolic')
+ for n in ('full', 'zeros', 'ones')
+] + [
+ _h(n, 'C04_generate', 'C04_generate', bounds=BD) for n in ('full_like', 'zeros_like', 'ones_like')
+] + [
+ _h(n, 'C04_generate', 'C04_generate', quick=[{'RNG': 8, 'MAXSTEP': 3}, {'RNG': 1 << 26, 'MAXSTEP': 3, 'KF_C04_ARANGE_FLOATLEN': 1}], thorough=[{'RNG': 64, 'MAXSTEP': 9}, {'RNG': 1 << 26, 'MAXSTEP': 9, 'KF_C04_ARANGE_FLOATLEN': 1}],
+    kf=['KF_C04_ARANGE_EMPTY'], bounds='int start, stop in [-RNG,RNG], step in [-MAXSTEP,MAXSTEP] minus 0 (arange2: step 1; arange1: start 0, step 1), element index: all symbolic; int dtype')
+ for n in ('arange3', 'arange2', 'arange1')
+] + [
+ _h('expand', 'C04_select', 'C04_select', bounds=BD + '; axis in [-DIM,DIM), spacing 0..2, fill value symbolic'),
+ _h('resize', 'C04_select', 'C04_select', bounds=BD + '; destination extents 1..5 per axis'),
+ _h('compress', 'C04_select', 'C04_select', bounds=BD + '; condition list of 1..min(4,n) truth values (every pattern incl. all-false), axis in [-DIM,DIM)', kf=['KF_C04_COMPRESS_NEGAXIS']),
+ _h('compress_flat', 'C04_select', 'C04_select', bounds=BD + '; condition list of 1..min(4,numel) truth values, axis=None'),
+ _h('diagflat', 'C04_select', 'C04_select', bounds=BD + '; k in [-2,2]'),
+ _h('split_args', 'C04_split', 'C04_split', quick=_SP(3), thorough=_SP(4), bounds='std::array shape of dim DIM (enumerated 1..3), extents 1..MAXE, axis in [-DIM,DIM), observed piece: symbolic; '
+    'run-time section count enumerated 1..3 (dividing the extent); result is a std::vector of slice arguments'),
+ _h('split_args_at', 'C04_split', 'C04_split', quick=_SP(3), thorough=_SP(4), bounds='std::array shape of dim DIM, extents 1..MAXE+1, strictly increasing cut positions inside (0,n), axis in [-DIM,DIM), observed piece: symbolic; '
+    'number of cut positions enumerated 1..3'),
+ _h('split', 'C04_split', 'C04_split', quick=_SP(3), thorough=_SP(4),
+    bounds=BD + '; section count a per-query constant 1..3 (compile-time in nmtools) dividing the extent, axis in [-DIM,DIM), piece number symbolic'),
+ _h('repeat_each', 'C04_multi', 'C04_multi', kf=['KF_C04_REPEAT_NEGAXIS'], bounds=BD + '; one repeat count 0..3 per element along axis (sum >= 1), axis in [-DIM,DIM)'),
+ _h('roll_axes', 'C04_multi', 'C04_multi', quick=_dims(3, (2, 3)), thorough=_dims(4, (2, 3)), kf=['KF_C04_ROLL_BIGSHIFT'], bounds=BD + ' (DIM 2..3); two distinct axes in [-DIM,DIM), one shift in [-2n,2n] per axis'),
+ _h('roll_axes_scalar', 'C04_multi', 'C04_multi', quick=_dims(3, (2, 3)), thorough=_dims(4, (2, 3)), kf=['KF_C04_ROLL_BIGSHIFT'], bounds=BD + ' (DIM 2..3); two distinct axes, one scalar shift'),
+ _h('sliding_axes', 'C04_multi', 'C04_multi', quick=_dims(3, (2, 3)), thorough=_dims(4, (2, 3)), bounds=BD + ' (DIM 2..3); two distinct axes in [-DIM,DIM), window 1..n per axis'),
+ _h('expand_axes', 'C04_multi', 'C04_multi', quick=_dims(3, (2, 3)), thorough=_dims(4, (2, 3)), bounds=BD + ' (DIM 2..3); two distinct axes, spacing 0..2 per axis, fill symbolic'),
+ _h('expand_axes_scalar', 'C04_multi', 'C04_multi', quick=_dims(3, (2, 3)), thorough=_dims(4, (2, 3)), bounds=BD + ' (DIM 2..3); two distinct axes, scalar spacing 0..2'),
+ ] + [
+ _h('ix_' + n, 'C04_index', 'C04_index', quick=[dict({'MAXE': 6}, **kw)], thorough=[dict({'MAXE': 8}, **kw)],
+    bounds='index level, static_vector<size_t,4> shapes: dimension 1..4, extents 1..MAXE, arguments and the destination index all symbolic' + x)
+ for n, x, kw in (('tile', '; reps list of 1..4 entries 1..3', {}), ('repeat', '; scalar repeats 1..3, axis', {}), ('roll', '; shift in [-2n,2n], axis', {'KF_C04_ROLL_BIGSHIFT': 1}),
+                  ('pad', '; 1..8 widths 0..2 (accepted iff 2*dim)', {'_unwind': 10}), ('take', '; index list of 1..4 non-negative entries, axis', {}),
+                  ('concatenate', '; two shapes (agreeing and disagreeing off the axis), axis', {}), ('resize', '; destination of 1..4 extents 0..MAXE+2 (accepted iff same dim and positive)', {}))
+ ] + [
+ _h('where', 'C04_select', 'C04_select', bounds='three hybrid arrays of one shape, dim DIM (enumerated 1..3), extents 1..MAXE, all three data buffers and the result index symbolic'),
 ]
 OUTSIDE = []
 ASSUMPTIONS = []
@@ -42,5 +94,48 @@ PENDING_FINDINGS = [
  dict(id='C04-roll-shift-beyond-extent', harness='roll_flat', exclude_define='KF_C04_ROLL_BIGSHIFT', witness_config={'DIM': 1, 'MAXE': 3},
       witness_inputs=['0x3', '0xffffbfff', '0xffffffff', '0xffffffff', '0x4', '0x0', '0x0', '0x0', '0x0'],
       what='same defect through view::roll(a, shift) (axis=None): shape (3,), shift=4, element 0'),
+ dict(id='C04-repeat-negative-axis', harness='repeat_each', exclude_define='KF_C04_REPEAT_NEGAXIS', witness_config={'DIM': 1, 'MAXE': 3},
+      witness_inputs=['0x2', '0x1', '0x0', '0x0', '0xffffffffffffffff', '0x0', '0x3', '0x3', '0x2', '0x0', '0x0', '0x8', '0x8'],
+      what='same defect with per-element repeats: a=[1,0], repeats=[0,3], axis=-1, element 0 (NumPy: a[1])'),
+ dict(id='C04-take-negative-axis', harness='take', exclude_define='KF_C04_TAKE_NEGAXIS', witness_config={'DIM': 1, 'MAXE': 3, 'KF_C04_TAKE_NEGINDEX': 1},
+      witness_inputs=['0x2', '0x0', '0x100', '0x0', '0x4', '0xffffffffffffffff', '0x0', '0x0', '0x0', '0x0', '0x1', '0x0', '0x0', '0x0'],
+      what='view::take(a, indices, axis) with a negative axis: index::shape_take / index::take compare the loop counter with the raw axis (take.hpp:35,88), so the axis is never '
+           'matched: shape (2,), indices=[0,0,0,0], axis=-1 gives shape (2,) instead of (4,) and element 1 is a[1] instead of a[indices[1]]=a[0]'),
+ dict(id='C04-take-negative-index', harness='take', exclude_define='KF_C04_TAKE_NEGINDEX', witness_config={'DIM': 1, 'MAXE': 3, 'KF_C04_TAKE_NEGAXIS': 1},
+      witness_inputs=['0x2', '0x0', '0x10', '0x10', '0x4', '0x0', '0x0', '0x0', '0xffffffffffffffff', '0xfffffffffffffffe', '0x2', '0x0', '0x0', '0x0'],
+      what='view::take with a negative entry in the index list (NumPy: counts from the end): the entry is used as the source index unchanged -> out-of-bounds read: '
+           'shape (2,), indices=[0,0,-1,-2], axis=0, element 2 (NumPy: a[-1]=a[1])'),
+ dict(id='C04-take-negative-index', harness='take_flat', exclude_define='KF_C04_TAKE_NEGINDEX', witness_config={'DIM': 1, 'MAXE': 3},
+      witness_inputs=['0x3', '0x0', '0x0', '0x400000', '0x4', '0xfffffffffffffffe', '0xfffffffffffffffe', '0x2', '0xfffffffffffffffe', '0x0'],
+      what='same defect with axis=None: shape (3,), indices=[-2,-2,2,-2], element 0 (NumPy: a[1])'),
+ dict(id='C04-concatenate-negative-axis', harness='concatenate', exclude_define='KF_C04_CONCATENATE_NEGAXIS', witness_config={'DIM': 1, 'MAXE': 3},
+      witness_inputs=['0xffffffffffffffff', '0x2', '0x2', '0x1', '0x2', '0x0', '0x3', '0x4', '0x0', '0x2', '0x0', '0x0', '0x0'],
+      what='view::concatenate(a, b, axis) with a negative axis: index::shape_concatenate / index::concatenate compare the loop counter with the raw axis '
+           '(concatenate.hpp:197,93), so the joined extent is not a+b (the extents are compared for equality instead; differing extents give an unchecked failure under NDEBUG) '
+           'and b\'s index is not shifted: a=[1,2], b=[3,4], axis=-1 -> shape (2,) instead of (4,)'),
+ dict(id='C04-concatenate-negative-axis', harness='stack', exclude_define='KF_C04_STACK_NEGAXIS', witness_config={'DIM': 1, 'MAXE': 3},
+      witness_inputs=['0xfffffffffffffffe', '0x3', '0x1', '0x0', '0x0', '0x0', '0x0', '0x0', '0x0', '0x0', '0x0', '0x2', '0x2'],
+      what='same defect through view::stack(a, b, axis) with a negative axis (expand_dims handles it, the inner concatenate does not): two (3,) arrays, axis=-2 -> shape is not (2,3)'),
+ dict(id='C04-diagonal-negative-offset', harness='diagonal', exclude_define='KF_C04_DIAGONAL_NEGOFFSET', witness_config={'DIM': 2, 'MAXE': 3},
+      witness_inputs=['0x3', '0x3', '0x0', '0x80000000', '0x80000000', '0x80000000', '0x0', '0x80000000', '0x80000000', '0x80000000', '0x80000000',
+                      '0xfffffffffffffffe', '0x0', '0x1', '0x0', '0x0', '0x0', '0x2'],
+      what='view::diagonal(a, offset<0, axis1, axis2): index::diagonal sets index[axis1]=i and index[axis2]=i+offset (diagonal.hpp:80-81), i.e. a negative column index, '
+           'instead of index[axis1]=i-offset, index[axis2]=i: shape (3,3), offset=-2, axes (0,1), element 0 reads a[0,-2] (out-of-bounds; NumPy: a[2,0]); the shape is NumPy\'s'),
+ dict(id='C04-arange-empty-range', harness='arange3', exclude_define='KF_C04_ARANGE_EMPTY', witness_config={'RNG': 8, 'MAXSTEP': 3},
+      witness_inputs=['0xfffffffffffffff8', '0x8', '0xffffffffffffffff', '0x0'],
+      what='view::arange with an empty range (stop on the wrong side of start for the sign of step): index::arange_shape computes ceil_(float(stop-start)/step) and converts the negative '
+           'quotient to size_t (arange.hpp:13-15,28), so the length is not 0: arange(-8, 8, -1) has NumPy shape (0,), nmtools reports a huge extent (float->unsigned conversion of a negative value)'),
+ dict(id='C04-arange-empty-range', harness='arange2', exclude_define='KF_C04_ARANGE_EMPTY', witness_config={'RNG': 8, 'MAXSTEP': 3},
+      witness_inputs=['0xfffffffffffffffe', '0xfffffffffffffffa', '0x3', '0x0'], what='same: arange(-2, -6)'),
+ dict(id='C04-arange-empty-range', harness='arange1', exclude_define='KF_C04_ARANGE_EMPTY', witness_config={'RNG': 8, 'MAXSTEP': 3},
+      witness_inputs=['0x8', '0xfffffffffffffff8', '0x3', '0x0'], what='same: arange(-8)'),
+ dict(id='C04-compress-negative-axis', harness='compress', exclude_define='KF_C04_COMPRESS_NEGAXIS', witness_config={'DIM': 1, 'MAXE': 3},
+      witness_inputs=['0x2', '0x0', '0x0', '0x0', '0xffffffffffffffff', '0x1', '0x0', '0x0', '0x1', '0x1', '0x0', '0x0', '0x0', '0x0'],
+      what='view::compress(condition, a, axis) with a negative axis: index::shape_compress / index::compress compare the loop counter with the raw axis (compress.hpp:41,78): '
+           'shape (2,), condition=[False], axis=-1 gives shape (2,) instead of (0,) (and with true entries the selected positions are not applied)'),
+ dict(id='C04-arange-float-length', harness='arange3', exclude_define='KF_C04_ARANGE_FLOATLEN', witness_config={'RNG': 1 << 26, 'MAXSTEP': 3, 'KF_C04_ARANGE_EMPTY': 1},
+      witness_inputs=['0xfffffffffc000000', '0x3ffffff', '0x3', '0x0'],
+      what='view::arange on integer grids longer than 2^24: the length is ceil_(float(stop-start)/step) in single precision (arange.hpp:28), off by one once stop-start exceeds the 24-bit mantissa: '
+           'arange(-67108864, 67108863, 3) has 44739243 elements in NumPy, nmtools reports a different length'),
 ]
 CLAIM = dict(text='', note='')
